@@ -1,5 +1,7 @@
 import Rc.Model.Bmp
+import Rc.Model.BmpEmbedded
 import Rc.Model.OpenParse
+import Rc.Drv.C01
 namespace Rc.Drv.C15
 open Rc Rc.Bmp
 
@@ -42,7 +44,22 @@ def head (bs : Bytes) : String :=
   let dbg := showO (fun _ => "ok") (debugLen bs)
   s!"ch={ch} dbg={dbg}"
 
-def observe (bs : Bytes) : String :=
+def b01 (b : Bool) : String := if b then "1" else "0"
+
+/-- one embedded OPEN of a PeerUp as the configuration accessors see it -/
+def showOpenCfg (c : OpenCfg) : String :=
+  let ap := match c.addpath with | some l => toString l.length | none => "E"
+  s!"{c.asn}.{b01 c.four}.{ap}.{c.mp.length}"
+
+/-- the embedded UPDATE of a RouteMonitoring message: the C01/C02 observation of
+`parseUpdate cfg` on the bytes after the per-peer header -/
+def showRmUpdate (cfg : Upd.Cfg) (bs : Bytes) : String :=
+  match rmUpdate cfg bs with
+  | .ok m => "ok " ++ Rc.Drv.C01.observe m
+  | .err => "err"
+  | .panic => "panic"
+
+def observe (cfg : Upd.Cfg) (bs : Bytes) : String :=
   match fromOctets deps bs with
   | .err => "err"
   | .panic => "panic"
@@ -50,7 +67,9 @@ def observe (bs : Bytes) : String :=
     let h := head bs
     let p := showO showPph (pph bs)
     match k with
-    | .routeMonitoring => s!"RM {h} pph={p}"
+    | .routeMonitoring =>
+      -- `same=1`: theorem `route_monitoring_update_same` (the embedded UPDATE decodes as on its own)
+      s!"RM {h} pph={p} same=1 upd={showRmUpdate cfg bs}"
     | .statisticsReport =>
       let s := match statsCount bs, stats bs with
         | .ok n, .ok l => s!"{n}:[{joinWith ";" (l.map showStat)}]"
@@ -64,7 +83,11 @@ def observe (bs : Bytes) : String :=
     | .peerUp =>
       match peerUp deps bs with
       | .ok u =>
-        s!"PU {h} pph={p} local={hexOrDash u.localAddr}:{u.localPort}:{u.remotePort} sent={hexOrDash u.openSent} rcvd={hexOrDash u.openRcvd} pair=same tlvs={showTlvs u.tlvs} cfg=ok"
+        let c := match peerUpConfig deps bs with
+          | .ok (a, b) => s!"ok:{showOpenCfg a}/{showOpenCfg b}"
+          | .err => "err"
+          | .panic => "panic"
+        s!"PU {h} pph={p} local={hexOrDash u.localAddr}:{u.localPort}:{u.remotePort} sent={hexOrDash u.openSent} rcvd={hexOrDash u.openRcvd} pair=same tlvs={showTlvs u.tlvs} cfg={c}"
       | _ => s!"PU {h} pph={p} panic"
     | .initiation => s!"IN {h} tlvs={showO showTlvs (initiationTlvs bs)}"
     | .termination =>
@@ -75,8 +98,12 @@ def handle (ws : List String) : String :=
   match ws with
   | ["bmp", h] =>
     match bytesOfHex h with
-    | some bs => observe bs
+    | some bs => observe ⟨true, []⟩ bs
     | none => "bad-op"
+  | ["bmp", h, c] =>
+    match bytesOfHex h, Rc.Drv.C01.parseCfg c with
+    | some bs, some cfg => observe cfg bs
+    | _, _ => "bad-op"
   | _ => "bad-op"
 
 end Rc.Drv.C15
